@@ -50,10 +50,31 @@ func ZZ_C05_RealContext() {
 		err = c.Run(ctx)
 	case 3: // a target file that does not parse
 		before = "2020-01-01\n  8:00 - " + placeholder + "\n 1h " + sum + "\n"
+		if zz.Choose(2) == 1 {
+			before = "2020-01-01\n    1h\n\n2020-01-02\nfoo\n 1h " + sum + "\n" // the faulty record is not the targeted one
+		}
 		zz.FSWrite(zzTarget, before)
-		c := &Stop{}
-		c.Date, c.Time, c.File = date, t, zzTarget
-		err = c.Run(ctx)
+		switch zz.Choose(4) {
+		case 0:
+			c := &Stop{}
+			c.Date, c.Time, c.File = date, t, zzTarget
+			err = c.Run(ctx)
+		case 1:
+			c := &Track{Entry: klog.EntrySummary{"2h " + sum}}
+			c.Date, c.File = date, zzTarget
+			c.NoWarn = true
+			err = c.Run(ctx)
+		case 2:
+			c := &Start{}
+			c.Date, c.Time, c.File = date, t, zzTarget
+			c.NoWarn = true
+			err = c.Run(ctx)
+		case 3:
+			c := &Create{}
+			c.Date, c.File = date, zzTarget
+			c.NoWarn = true
+			err = c.Run(ctx)
+		}
 		zz.Assert(err != nil, "command-on-invalid-file-fails")
 	}
 	after, ok := zz.FSRead(zzTarget)
